@@ -195,8 +195,25 @@ def _ctor(ck, prog):
     if isinstance(loop, ast.For):
         rng = unparse(loop.iter).replace(" ", "")
         forms = ("np.arange(0,self.len)", "range(0,self.len)", "range(self.len)", "np.arange(self.len)", "self.seq", "range(len(self.seq))", "range(0,len(self.seq))", "enumerate(self.seq)")
-        ck.shape(rng in forms or rng.startswith(("range(", "np.arange(")), "Sequence.__init__: charge-pattern loop over a range or over the sequence", f.loc(loop))
-        ck.ob("DEP", construct, rng in forms, expected="every position 0..len-1", found=rng, slot="chargePattern-domain", where=f.loc(loop))
+        whole = rng in forms
+        if not whole:
+            # the iterable is evaluated: the whole sequence (a slice [0, len) of it included) or the index range [0, len)
+            from lcsa.sym import Evaluator, ObjV, SeqV, WinV, ARangeV, _Frame
+            from lcsa.alg import Rat
+            try:
+                it = Evaluator(prog).eval(loop.iter, {"self": ObjV("Sequence")}, _Frame(f, 0))
+            except Undecided:
+                it = None
+            zero, n = Rat.const(0), Rat.atom("N")
+            if isinstance(it, WinV) and it.base.kind == "seq" and isinstance(it.lo, Rat) and isinstance(it.hi, Rat):
+                whole = it.lo.equals(zero) and it.hi.equals(n)
+            elif isinstance(it, ARangeV):
+                whole = it.lo.equals(zero) and it.hi.equals(n)
+            elif isinstance(it, SeqV) and it.kind == "seq":
+                whole = True
+            else:
+                ck.shape(False, "Sequence.__init__: charge-pattern loop over a range or over the sequence", f.loc(loop))
+        ck.ob("DEP", construct, whole, expected="every position 0..len-1", found=rng, slot="chargePattern-domain", where=f.loc(loop))
     else:
         # direct store of a per-residue expression: facts.charge_map accepted it only as an element-wise map of the whole of self.seq
         ck.ob("DEP", construct, True, expected="every position 0..len-1", found="element-wise map of self.seq", slot="chargePattern-domain", where=f.loc(loop))
